@@ -56,7 +56,7 @@ def extra_triple(gen, minor):
     """C07-specific enrichments; returns (cls, base, local, remote, info)"""
     import copy
     r = gen.rng
-    cls = r.choice(["both_append_end", "edit_in_deleted", "insert_next_deleted", "empty_one_side", "whitespace_only", "same_change_plus_conflict", "two_conflict_regions", "two_conflict_regions"])
+    cls = r.choice(["both_append_end", "edit_in_deleted", "insert_next_deleted", "empty_one_side", "whitespace_only", "same_change_plus_conflict", "two_conflict_regions", "two_conflict_regions", "continued_last_line"])
     base = gen.notebook(minor, ncells=r.choice([2, 3, 4]))
     m = base["nbformat_minor"]
     from ..workloads import _plain
@@ -108,6 +108,17 @@ def extra_triple(gen, minor):
             rl[j] = "remote variant %d: " % r.randrange(99) + lines[j]
         loc["cells"][k]["source"] = "\n".join(ll) + fin
         rem["cells"][k]["source"] = "\n".join(rl) + fin
+    elif cls == "continued_last_line":
+        # both sides continue the (unterminated) last line of a cell - or fill an empty cell - and one side's
+        # text is a character prefix of the other's: same-line rewrite, although one text "contains" the other
+        s = r.choice([base["cells"][k]["source"].rstrip("\n"), "", "threshold = 0.5", "import pandas"])
+        base["cells"][k]["source"] = s
+        first = r.choice(["5", " as pd", " + offset", "_v2", "import numpy" if not s else " # note"])
+        second = r.choice(["5", " # pinned", ", axis=0", "0"])
+        a, b2 = s + first, s + first + second
+        if r.random() < 0.3:
+            b2 += "\n" + "another line %d" % r.randrange(99)
+        loc["cells"][k]["source"], rem["cells"][k]["source"] = (a, b2) if r.random() < 0.5 else (b2, a)
     elif cls == "whitespace_only":
         s = base["cells"][k]["source"]
         loc["cells"][k]["source"] = s.replace(" ", "  ", 1) if " " in s else s + " "
